@@ -95,4 +95,16 @@ example : (xor .w32 w32 0 1).map (fun w => decide (den .w32 w 1 = xorOperandAfte
   decide +kernel
 example : (xor .w32 (build .w32 [(0, [1, 65536, 131072])]) 0 0).map (fun w => den .w32 w 0) = some [] := by decide +kernel
 
+-- a WRAPPER receiver never aliases a wrapper operand, although the native Xor keeps a container of what it is given: it
+-- is given the private snapshot (`snapshotOperand`), so a later `b.Add` cannot reach `r` — also for an EMPTY `b`
+example : (xorViaSnapshot .w64 (build .w64 [(0, [1, 21474836480]), (1, [8589934592, 8589934593])]) 0 1 2).map
+    (fun w => (den .w64 (add .w64 w 1 8589934599) 0, den .w64 (add .w64 w 0 8589934599) 1)) =
+    some ([1, 8589934592, 8589934593, 21474836480], [8589934592, 8589934593]) := by decide +kernel
+example : (xorViaSnapshot .w64 (build .w64 [(0, [1, 21474836480]), (1, [])]) 0 1 2).map
+    (fun w => (den .w64 (add .w64 w 1 8589934599) 0, den .w64 (add .w64 w 1 8589934599) 1)) =
+    some ([1, 21474836480], [8589934599]) := by decide +kernel
+-- … whereas handing the native Xor the operand ITSELF (what a skipped clone amounts to) aliases it (same worlds)
+example : (xor .w64 (build .w64 [(0, [1, 21474836480]), (1, [8589934592, 8589934593])]) 0 1).map
+    (fun w => den .w64 (add .w64 w 1 8589934599) 0) = some [1, 8589934592, 8589934593, 8589934599, 21474836480] := by decide +kernel
+
 end Dawgs.C13.RoaringProps
